@@ -99,6 +99,99 @@ def free_object(rng, v):
     return s, "f 8 %d" % len(s)
 
 
+
+# ---- free-format file objects g70v2 .. g70v8 as the WRITERS must produce them ------------------------------
+# independent of the library and of the Coq model: the layouts of IEEE 1815 (A.27): offsets and sizes are 16-bit
+# little-endian, sizes count OCTETS of the UTF-8 strings, the strings follow the fixed-size fields.
+FREE_FIELDS = {      # (name, width in octets) of the numeric fields in the order of the `free` header
+    2: [("auth_key", 4)],
+    3: [("time", 6), ("permissions", 2), ("auth_key", 4), ("file_size", 4), ("mode", 2), ("max_block_size", 2), ("request_id", 2)],
+    4: [("file_handle", 4), ("file_size", 4), ("max_block_size", 2), ("request_id", 2), ("status", 1)],
+    5: [("file_handle", 4), ("block_number", 4)],
+    6: [("file_handle", 4), ("block_number", 4), ("status", 1)],
+    7: [("file_type", 2), ("file_size", 4), ("time", 6), ("permissions", 2), ("request_id", 2)],
+    8: [],
+}
+FREE_STRINGS = {2: 2, 3: 1, 4: 1, 5: 1, 6: 1, 7: 1, 8: 1}      # number of trailing strings / data fields
+FREE_NAME_OFFSET = {2: 12, 3: 26, 7: 20}
+U16 = 65535
+
+
+def free_steps(v, nums, strs):
+    """the writes of one object in wire order: ('b', octets) or ('c', bool) = a value that must fit 16 bits
+    at that point (a size, the offset of the password)"""
+    n = dict(zip([f for f, _ in FREE_FIELDS[v]], nums))
+    w = dict(FREE_FIELDS[v])
+    fld = lambda name: ('b', D.le(n[name], w[name]))
+    if v == 2:
+        u, p = strs
+        return [('b', D.le(12, 2)), ('c', len(u) <= U16), ('b', D.le(len(u) & U16, 2)),
+                ('c', 12 + len(u) <= U16), ('b', D.le((12 + len(u)) & U16, 2)),
+                ('c', len(p) <= U16), ('b', D.le(len(p) & U16, 2)), fld("auth_key"), ('b', u), ('b', p)]
+    if v in (3, 7):
+        name = strs[0]
+        return [('b', D.le(FREE_NAME_OFFSET[v], 2)), ('c', len(name) <= U16), ('b', D.le(len(name) & U16, 2))] \
+            + [fld(f) for f, _ in FREE_FIELDS[v]] + [('b', name)]
+    return [fld(f) for f, _ in FREE_FIELDS[v]] + [('b', strs[0])]
+
+
+def free_request(cap, seq, fc, objs):
+    """what start_request + write_free_format of the objects must leave in a buffer of `cap` octets:
+    ('bytes', data) or ('err', token)"""
+    out = bytearray()
+
+    def put(b):
+        if len(out) + len(b) > cap:
+            return False
+        out.extend(b); return True
+    for b in (bytes([D.control(True, True, False, False, seq)]), bytes([fc])):
+        if not put(b): return ('err', 'write-overflow')
+    for (v, nums, strs) in objs:
+        for b in (bytes([70]), bytes([v]), bytes([D.Q_FREE]), bytes([1])):
+            if not put(b): return ('err', 'write-overflow')
+        if len(out) + 2 > cap:
+            return ('err', 'bad-seek')
+        at = len(out)
+        out.extend(b"\0\0")
+        for kind, x in free_steps(v, nums, strs):
+            if kind == 'c':
+                if not x: return ('err', 'numeric-overflow')
+            elif not put(x):
+                return ('err', 'write-overflow')
+        n = len(out) - at - 2
+        if n > U16:
+            return ('err', 'numeric-overflow')
+        out[at:at + 2] = D.le(n, 2)
+    return ('bytes', bytes(out))
+
+
+CHARS = ["a", "Z", "0", ".", "_", " ", "é", "ñ", "ß", "Ω", "日", "€", "✓", "\u0800", "\uffff", "\U0001F600", "\U0001D11E", "\U0010FFFF"]
+
+
+def free_string(rng):
+    """UTF-8 octets of a file name / user name / password: ASCII, 2-, 3- and 4-octet characters, empty"""
+    c = rng.below(10)
+    if c == 0:
+        return b""
+    if c <= 2:
+        return bytes(rng.range(0x20, 0x7E) for _ in range(rng.range(1, 30)))
+    if c == 3:
+        return rng.choice(["données.csv", "grüße.txt", "日本語/ファイル", "пароль", "🔑", "a\u00e9\u20ac\U0001F600"]).encode()
+    if c == 4:     # only characters of one width
+        ch = rng.choice(["é", "€", "\U0001F600"])
+        return (ch * rng.range(1, 12)).encode()
+    return "".join(rng.choice(CHARS) for _ in range(rng.range(1, 24))).encode()
+
+
+def free_numbers(rng, v):
+    out = []
+    for name, w in FREE_FIELDS[v]:
+        top = (1 << (8 * w)) - 1
+        if name == "permissions": top = 511
+        out.append(rng.choice([0, 1, top, rng.below(top + 1), rng.below(top + 1)]))
+    return out
+
+
 def valid_header(rng, fc, g, v, q, start, count, zls):
     """independent encoding of one header that the library must accept, or None when the combination of
     object, qualifier, function and count is not a supported one"""
@@ -276,7 +369,8 @@ class C09(Prop):
     theorems = []
     modelled = ("modelled by hand: the generic object-header walker and iterators of app/parse/*.rs, AttrValue::parse "
                 "and the g70 readers as far as lengths/offsets/UTF-8 (App/Grammar.v), ControlField/Iin/header validation "
-                "(App/AppHeader.v), HeaderWriter as used by master/request.rs (App/Writers.v); regenerated from source: "
+                "(App/AppHeader.v), HeaderWriter as used by master/request.rs, the writers of g70v2..v8 and "
+                "write_free_format (App/Writers.v); regenerated from source: "
                 "Variation::lookup, SIZE and read/write field lists of the 98 fixed-size variations, the "
                 "variation->data-kind table of every qualifier family, qualifier and function codes, control masks. "
                 "RangeWriter/EventWriter output is covered by C10/C11 engines, not here.")
@@ -285,7 +379,9 @@ class C09(Prop):
             "(and unknown ones) x counts {0,1,2,255,256,65535 / ranges ending at 255 and 65535} x READ/non-READ, random "
             "object values; multi-header fragments; all function codes x control bits; device attributes and free-format "
             "file objects; truncation at every octet, extension by one octet, one flipped bit, wrong qualifier; request "
-            "builders (class scans, ranges, counts, prefixed commands) re-parsed.  A script is non-trivial when the "
+            "builders (class scans, ranges, counts, prefixed commands) re-parsed; the free-format file objects g70v2..v8 "
+            "written through write_free_format with ASCII / 2-, 3-, 4-octet-character / empty / limit-length strings and "
+            "small buffers, compared with an independent encoder and re-parsed.  A script is non-trivial when the "
             "implementation listed a header or reported an error; distinct = distinct trace")
 
     # ---- single fragments ---------------------------------------------------------------------------
@@ -517,7 +613,72 @@ class C09(Prop):
         #    was written must still parse and be a prefix of the selected points
         for _ in range(60 if quick else 3000):
             out.append(self.dbwrite_budget_case(rng, sid()))
+        # 10. the writers of the free-format file objects (g70v2..v8 through write_free_format): names, user names
+        #     and passwords with 1- to 4-octet characters, empty, at and beyond the 16-bit limits; small buffers
+        for spec in self.FREE_LIMITS:
+            out.append(self.encode_free_limit_case(rng, sid(), spec))
+        for _ in range(36 if quick else 2500):
+            out.append(self.encode_free_case(rng, sid()))
         return out
+
+    # (variation, octets of each string) around the limits: a size must fit 16 bits, for g70v2 also 12 + size of the
+    # user name, and the whole object must fit the 16-bit length of the header
+    FREE_LIMITS = [(3, [65509]), (3, [65510]), (3, [65535]), (3, [65536]), (7, [65515]), (7, [65516]), (7, [65536]),
+                   (2, [65523, 0]), (2, [65524, 0]), (2, [65536, 0]), (2, [0, 65523]), (2, [0, 65524]), (2, [0, 65536]),
+                   (2, [30000, 35523]), (2, [30000, 35524]),
+                   (4, [65522]), (4, [65523]), (5, [65527]), (5, [65528]), (6, [65526]), (6, [65527]), (8, [65535]), (8, [65536]),
+                   # which error comes first when the string is too long AND the buffer ends early (third item = capacity)
+                   (2, [65536, 3], 7), (2, [65536, 3], 9), (2, [65536, 3], 10), (2, [3, 65536], 13), (2, [3, 65536], 14),
+                   (2, [65530, 3], 11), (2, [65530, 3], 12), (3, [65536], 9), (3, [65536], 10), (7, [70000], 10)]
+
+    def free_case(self, s, cap, seq, fc, objs, kind):
+        toks = ["encode", seq, fc]
+        for i, (v, nums, strs) in enumerate(objs):
+            toks += (["/"] if i else []) + ["free", v] + list(nums) + [hexs(x) for x in strs]
+        what, x = free_request(cap, seq, fc, objs)
+        if what == 'err':
+            meta = {"expect": "encode-free-err", "token": x}
+        else:
+            lines = header_lines(x[0], fc, None, "req")
+            for (v, nums, strs) in objs:
+                lines += ["h 70 %d %d 1" % (v, D.Q_FREE), "f %d %s" % (v, " ".join(str(len(t)) for t in strs))]
+            meta = {"expect": "encode", "bytes": hexs(x), "lines": lines + ["end"]}
+        return Case(s, script_text(s, "app", {"cap": cap}, [tuple(toks)]), {"kind": kind, "ops": [meta]})
+
+    def long_string(self, rng, n, allow_wide):
+        """exactly n octets of UTF-8; mostly ASCII, or as many 2-/3-octet characters as fit"""
+        if n == 0:
+            return b""
+        if allow_wide and rng.chance(1, 3):
+            ch = rng.choice(["é", "€"]).encode()
+            k = n // len(ch)
+            return ch * k + b"x" * (n - k * len(ch))
+        return bytes([rng.range(0x61, 0x7A)]) * n
+
+    def encode_free_limit_case(self, rng, s, spec):
+        v, lens = spec[0], spec[1]
+        strs = [self.long_string(rng, n, v != 5) for n in lens]
+        return self.free_case(s, spec[2] if len(spec) > 2 else 140000, rng.below(16), rng.choice([D.FC_WRITE, 25, 26, 27, 28, 29, 30]),
+                              [(v, free_numbers(rng, v), strs)], "encode-free-limit")
+
+    def encode_free_case(self, rng, s):
+        objs = []
+        for _ in range(2 if rng.chance(1, 4) else 1):
+            v = rng.choice([2, 2, 3, 3, 7, 7, 4, 5, 6, 8])
+            if v == 5:
+                strs = [rng.bytes(rng.choice([0, 1, 2, 100, 300]))]
+            else:
+                strs = [free_string(rng) for _ in range(FREE_STRINGS[v])]
+            objs.append((v, free_numbers(rng, v), strs))
+        cap = rng.choice([2048, 2048, 2048, 2048, 2048, 300, rng.range(0, 12), rng.range(8, 60), rng.range(8, 60)])
+        if rng.chance(1, 12):
+            # something too long for its size field together with a buffer that may end anywhere before it
+            v = rng.choice([2, 3, 7])
+            strs = [self.long_string(rng, rng.choice([65536, 65600, 70000]), True)] + ([free_string(rng)] if v == 2 else [])
+            if v == 2 and rng.chance(1, 2): strs.reverse()
+            objs = [(v, free_numbers(rng, v), strs)]
+            cap = rng.choice([rng.range(6, 20), rng.range(6, 20), 140000])
+        return self.free_case(s, cap, rng.below(16), rng.choice([D.FC_WRITE, 25, 26, 27, 28, 29, 30]), objs, "encode-free")
 
     def dbwrite_budget_case(self, rng, s):
         ty = rng.choice(["ai", "ai", "ctr", "bi", "dbi"])
@@ -764,7 +925,11 @@ class C09(Prop):
                         fails.append(("accepted-inexact", why))
             elif e == "encode":
                 if b[:1] != ["bytes " + m["bytes"]]:
-                    fails.append(("builder-bytes", "the builder wrote %s, the request is %s" % (b[0][:120] if b else None, m["bytes"][:120])))
+                    got = b[0] if b else ""
+                    d = next((i for i, (x, y) in enumerate(zip(got, "bytes " + m["bytes"])) if x != y), min(len(got), len(m["bytes"]) + 6))
+                    fails.append(("builder-bytes", "the builder wrote %s, the request is %s (first difference at octet %d: ...%s / ...%s)"
+                                  % (got[:120] if b else None, m["bytes"][:120], max(0, d - 6) // 2, got[max(6, d - 8):d + 8],
+                                     ("bytes " + m["bytes"])[max(6, d - 8):d + 8])))
                 elif b[1:] != m["lines"]:
                     fails.append(("encoded-not-decoded", "a built request was not decoded to what was encoded: " + " / ".join(b[1:])[:200]))
             elif e == "dbwrite-partial":
@@ -784,6 +949,12 @@ class C09(Prop):
                                       % (m["line"], " / ".join(b[3:])[:160])))
                 elif not any(l.startswith("encode-err") for l in b):
                     fails.append(("encoded-not-decoded", "a written attribute was rejected by the parser: " + " / ".join(b)[:200]))
+            elif e == "encode-free-err":
+                if accepted:
+                    fails.append(("builder-accepts-unencodable", "a free-format object that cannot be encoded (%s) was written: %s"
+                                  % (m["token"], " / ".join(b)[:160])))
+                elif b != ["encode-err " + m["token"], "end"]:
+                    fails.append(("builder-error", "writing the free-format object must fail with %s: %s" % (m["token"], " / ".join(b)[:160])))
             elif e == "encode-reject":
                 if accepted:
                     fails.append(("builder-accepts-unencodable", "the builder produced bytes for a request that cannot be encoded: " + " / ".join(b)[:160]))
